@@ -139,6 +139,15 @@ def run(tape, scenario, want_c10=False):
         names_before = len(decls)
         declare(sns, f"subcls{s}", 1 + tape.draw("c08/nsubvars", 3),
                 percpu_ok=pmap is not None and tape.chance("c08/percpu-in-subprogram", 50))
+        # user classes bring their own special methods: sub-programs that compare equal
+        # by value (all instances of the class here), or that are empty containers
+        if tape.chance("c08/subprograms-equal-by-value", 20):
+            sns["__eq__"] = lambda self, other: type(self) is type(other)
+            sns["__hash__"] = lambda self: 17
+            world.count("c08/sub-program-class-with-value-equality")
+        if tape.chance("c08/falsy-subprograms", 15):
+            sns["__len__"] = lambda self: 0
+            world.count("c08/sub-program-class-with-len-0")
         subclasses.append((type(f"Sub{s}", (SubProgram,), sns), decls[names_before:]))
         del decls[names_before:]
     subs = []
@@ -176,6 +185,8 @@ def run(tape, scenario, want_c10=False):
                 setattr(obj(dst[0]), dst[1], src)
         self.exit(XDPExitCode.PASS)
     ns["program"] = program
+    if tape.chance("c08/falsy-program", 15):
+        ns["__len__"] = lambda self: len(self.subprograms)   # no sub-programs: falsy
     P = type("P", (bases[-1],) if bases else (XDP,), ns)
 
     log = hashlib.sha256(repr((decls, stmts, possible, online)).encode())
@@ -358,7 +369,13 @@ def run(tape, scenario, want_c10=False):
                                  more_possible_than_online=possible > online)
                             break
                     kept_views[(h, n)] = seq
-                    ncpu = len(seq)
+                    try:
+                        ncpu = len(seq)
+                    except Exception as e:
+                        viol("percpu-read-failed", f"{n}: what the variable gives is no "
+                             f"sequence of per-CPU values: {type(e).__name__}: {e}",
+                             more_possible_than_online=possible > online)
+                        break
                     if ncpu < online:
                         viol("percpu-cpu-count", f"{n}: Python sees {ncpu} CPUs, {online} are "
                              f"online ({possible} possible)")
